@@ -117,10 +117,165 @@ Theorem parse_tcp_request_trim d : parse_tcp_request (trim d) = parse_tcp_reques
 Proof.
   unfold parse_tcp_request. rewrite slen_trim.
   destruct (slen d <? 8)%nat; [reflexivity|].
-  rewrite idx_trim. destruct (@idx perr d 7) as [fc| |]; cbn [bind]; try reflexivity.
+  rewrite idx_trim. destruct (@idx perr d 7) as [fc| |]; cbn [bind]; [|reflexivity|reflexivity].
   rewrite read_req_trim, wcoil_req_trim, wreg_req_trim, wcoils_req_trim, wregs_req_trim, srvid_req_trim, rw_req_trim.
   reflexivity.
 Qed.
 
 Corollary parse_tcp_request_cap_indep v s : parse_tcp_request {| vis := v; spare := s |} = parse_tcp_request (exact v).
 Proof. rewrite <- (parse_tcp_request_trim {| vis := v; spare := s |}). reflexivity. Qed.
+
+(* ---------- a frame delimited by the classifier ---------- *)
+Definition delimited_frame (f : list N) : Prop :=
+  (8 <= length f)%nat /\ nth 2 f 0 = 0 /\ nth 3 f 0 = 0 /\ N.of_nat (length f) = 6 + len_of f /\ fc_of f <> 0.
+
+(* the frame m.received.Next(n) cuts off when the classifier said (n, _), n <> 0 *)
+Lemma header_ok_frame b n :
+  (8 <= length b)%nat -> frame_header_ok b n -> n <= N.of_nat (length b) ->
+  let f := firstn (N.to_nat n) b in
+  delimited_frame f /\ tid_of f = tid_of b /\ unit_of f = unit_of b /\ fc_of f = fc_of b /\
+  looks_like (exact f) false = looks_like (exact b) false.
+Proof.
+  intros H8 (H2 & H3 & Hn & Hn8 & Hfc) Hle f.
+  assert (Hlen : length f = N.to_nat n) by (unfold f; rewrite firstn_length; lia).
+  assert (Hb : b = f ++ skipn (N.to_nat n) b) by (unfold f; rewrite firstn_skipn; reflexivity).
+  assert (Hf8 : (8 <= length f)%nat) by lia.
+  assert (Hlk : looks_like (exact f) false = looks_like (exact b) false).
+  { transitivity (looks_like (exact (f ++ skipn (N.to_nat n) b)) false).
+    - symmetry. apply looks_exact_prefix. exact Hf8.
+    - f_equal. f_equal. symmetry. exact Hb. }
+  destruct (eight_or_more f Hf8) as (h0 & h1 & h2 & h3 & h4 & h5 & h6 & h7 & rest & Ef).
+  rewrite Ef in Hb. rewrite Hb in H2, H3, Hn, Hfc |- *.
+  unfold delimited_frame, tid_of, len_of, unit_of, fc_of in *. rewrite Ef in *.
+  cbn [app nth firstn skipn] in *.
+  repeat split; try assumption; try reflexivity. lia.
+Qed.
+
+Lemma mbap_delimited f sp : delimited_frame f -> parse_mbap {| vis := f; spare := sp |} = Ok (tid_of f).
+Proof.
+  intros (H8 & H2 & H3 & Hl & _).
+  destruct (eight_or_more f H8) as (h0 & h1 & h2 & h3 & h4 & h5 & h6 & h7 & rest & ->).
+  unfold len_of, tid_of in *. cbn [nth firstn skipn length] in *. subst h2 h3.
+  unfold parse_mbap, slen, idx, sub, scap.
+  cbn [vis spare length nth_error Nat.ltb Nat.leb bind app firstn skipn Nat.sub Nat.add andb negb orb N.eqb].
+  destruct (be16 [h4; h5] =? 0) eqn:E1; [unfold be16 in *; lia|].
+  match goal with |- context [if negb ?c then _ else _] => destruct c eqn:E2 end; cbn [negb]; [reflexivity|].
+  exfalso. unfold be16 in *. lia.
+Qed.
+
+(* every result of the request dispatcher on a delimited frame of a supported function: never a
+   panic; a request carries the frame's transaction id, unit id and function; an error is the
+   exception 03 addressed from the frame *)
+Definition parse_shape (f : list N) (x : pres (N * req)) : Prop :=
+  match x with
+  | Ok (t, r) => t = tid_of f /\ req_unit r = unit_of f /\ req_fc r = fc_of f
+  | Err e => e = err_tcp (tid_of f) (unit_of f) (fc_of f) 3
+  | Panic => False
+  end.
+
+Ltac nth_facts :=
+  repeat match goal with
+  | H : nth_error (vis _) _ = Some _ |- _ => apply (fun l n x => nth_error_nth l n (x:=x) 0) in H; cbn [vis] in H
+  end.
+Ltac shape_fin dd :=
+  subst dd; nth_facts; unfold parse_shape, unit_of, fc_of in *; cbn [bind]; cbn [req_unit req_fc];
+  first [ exfalso; lia
+        | repeat split; first [congruence | lia]
+        | f_equal; first [congruence | lia] ].
+Ltac shape_parser f sp :=
+  rewrite mbap_delimited by assumption; cbn [bind];
+  match goal with Hd : delimited_frame f |- _ => pose proof Hd as (?H8 & _) end;
+  set (d := {| vis := f; spare := sp |});
+  assert (Hs : slen d = length f) by reflexivity;
+  repeat go_step; shape_fin d.
+
+Lemma read_shape f sp fc : delimited_frame f -> fc_of f = fc -> parse_shape f (parse_read_req_tcp fc {| vis := f; spare := sp |}).
+Proof. intros Hd Hfc. unfold parse_read_req_tcp. shape_parser f sp. Qed.
+Lemma wcoil_shape f sp : delimited_frame f -> fc_of f = 5 -> parse_shape f (parse_wcoil_req_tcp {| vis := f; spare := sp |}).
+Proof. intros Hd Hfc. unfold parse_wcoil_req_tcp. shape_parser f sp. Qed.
+Lemma wreg_shape f sp : delimited_frame f -> fc_of f = 6 -> parse_shape f (parse_wreg_req_tcp {| vis := f; spare := sp |}).
+Proof. intros Hd Hfc. unfold parse_wreg_req_tcp. shape_parser f sp. Qed.
+Lemma wcoils_shape f sp : delimited_frame f -> fc_of f = 15 -> parse_shape f (parse_wcoils_req_tcp {| vis := f; spare := sp |}).
+Proof. intros Hd Hfc. unfold parse_wcoils_req_tcp. shape_parser f sp. Qed.
+Lemma wregs_shape f sp : delimited_frame f -> fc_of f = 16 -> parse_shape f (parse_wregs_req_tcp {| vis := f; spare := sp |}).
+Proof. intros Hd Hfc. unfold parse_wregs_req_tcp. shape_parser f sp. Qed.
+Lemma srvid_shape f sp : delimited_frame f -> fc_of f = 17 -> parse_shape f (parse_srvid_req_tcp {| vis := f; spare := sp |}).
+Proof. intros Hd Hfc. unfold parse_srvid_req_tcp. shape_parser f sp. Qed.
+Lemma rw_shape f sp : delimited_frame f -> fc_of f = 23 -> parse_shape f (parse_rw_req_tcp {| vis := f; spare := sp |}).
+Proof. intros Hd Hfc. unfold parse_rw_req_tcp. shape_parser f sp. Qed.
+
+Theorem parse_delimited f sp :
+  delimited_frame f -> is_supported (fc_of f) = true ->
+  parse_shape f (parse_tcp_request {| vis := f; spare := sp |}).
+Proof.
+  intros Hd Hsup. pose proof Hd as (H8 & _).
+  unfold parse_tcp_request.
+  set (d := {| vis := f; spare := sp |}).
+  assert (Hs : slen d = length f) by reflexivity.
+  replace (slen d <? 8)%nat with false by lia.
+  destruct (@idx_lt perr d 7) as [b7 [Hb Hn]]; [lia|]. rewrite Hb. cbn [bind].
+  apply (fun l n x => nth_error_nth l n (x:=x) 0) in Hn. cbn [vis d] in Hn. fold (fc_of f) in Hn. subst b7.
+  unfold d.
+  destruct ((fc_of f =? 1) || (fc_of f =? 2) || (fc_of f =? 3) || (fc_of f =? 4)) eqn:E1; [apply read_shape; auto|].
+  destruct (fc_of f =? 5) eqn:E5; [apply wcoil_shape; auto; lia|].
+  destruct (fc_of f =? 6) eqn:E6; [apply wreg_shape; auto; lia|].
+  destruct (fc_of f =? 15) eqn:E15; [apply wcoils_shape; auto; lia|].
+  destruct (fc_of f =? 16) eqn:E16; [apply wregs_shape; auto; lia|].
+  destruct (fc_of f =? 17) eqn:E17; [apply srvid_shape; auto; lia|].
+  destruct (fc_of f =? 23) eqn:E23; [apply rw_shape; auto; lia|].
+  exfalso. unfold is_supported, supported_fcs in Hsup. cbn [existsb] in Hsup. lia.
+Qed.
+
+Lemma parse_ok_len d p : parse_tcp_request d = Ok p -> (8 <= slen d)%nat.
+Proof. unfold parse_tcp_request. destruct (slen d <? 8)%nat eqn:E; [discriminate|]. intros _. lia. Qed.
+
+(* ---------- the classifier on the library's own request frames ---------- *)
+Lemma looks_mbap_frame tid len u fc body rest :
+  len < 65536 -> (3 <= len \/ (len = 2 /\ fc = 17)) -> fc <> 0 -> is_supported fc = true ->
+  looks_like (exact (mbap_bytes tid len ++ (u :: fc :: body) ++ rest)) false = Ok (len + 6, None).
+Proof.
+  intros Hl Hp Hf Hs. unfold mbap_bytes, put16. cbn [app]. rewrite looks_exact_cons. unfold looks8.
+  cbn [N.eqb andb negb].
+  replace (be16 [len / 256; len mod 256]) with len by (unfold be16; lia).
+  destruct ((len <? 3) && negb ((len =? 2) && (fc =? 17))) eqn:E1; [exfalso; lia|].
+  destruct (fc =? 0) eqn:E2; [lia|]. rewrite Hs. reflexivity.
+Qed.
+
+(* requests whose Bytes() the model covers: a read function code for the read requests and a
+   payload that fits its count byte (every request a constructor returns satisfies this) *)
+Definition encodable (r : req) : Prop :=
+  match r with
+  | RRead fc _ _ _ => fc = 1 \/ fc = 2 \/ fc = 3 \/ fc = 4
+  | RWCoils _ _ _ data | RWRegs _ _ _ data | RRW _ _ _ _ _ data => (length data <= 255)%nat
+  | _ => True
+  end.
+
+Lemma req_frame_shape r : encodable r ->
+  exists u body, req_body r = u :: req_fc r :: body /\
+    N.of_nat (length (req_body r)) = req_len16 r /\ req_len16 r < 65536 /\
+    (3 <= req_len16 r \/ (req_len16 r = 2 /\ req_fc r = 17)) /\
+    is_supported (req_fc r) = true /\ req_fc r <> 0.
+Proof.
+  intros He. destruct r as [fc u s q|u a st|u a d0 d1|u s c data|u s c data|u|u rs rq ws wq data];
+    cbn [req_body req_fc req_len16 app put16 encodable] in *; eexists; eexists; (split; [reflexivity|]);
+    cbn [length]; rewrite ?app_length; cbn [length]; unfold u16.
+  - destruct He as [-> | [-> | [-> | ->]]]; repeat split; try lia; try reflexivity.
+  - repeat split; try lia; try reflexivity.
+  - repeat split; try lia; try reflexivity.
+  - repeat split; try lia; try reflexivity.
+  - repeat split; try lia; try reflexivity.
+  - repeat split; try lia; try reflexivity.
+  - repeat split; try lia; try reflexivity.
+Qed.
+
+Theorem req_frame_looks tid r rest : encodable r ->
+  looks_like (exact (req_bytes_tcp tid r ++ rest)) false = Ok (N.of_nat (length (req_bytes_tcp tid r)), None) /\
+  (8 <= length (req_bytes_tcp tid r))%nat.
+Proof.
+  intros He. destruct (req_frame_shape r He) as (u & body & Hb & Hlen & Hlt & Hp & Hs & Hf).
+  unfold req_bytes_tcp. rewrite <- app_assoc, app_length.
+  assert (Hm : length (mbap_bytes tid (req_len16 r)) = 6%nat) by reflexivity.
+  rewrite Hm. split.
+  - rewrite Hb at 1. rewrite looks_mbap_frame by assumption. f_equal. f_equal. lia.
+  - rewrite Hb. cbn [length]. lia.
+Qed.
